@@ -188,6 +188,50 @@ def check(run):
         if i < 3:
             run.sample({'tree': G.render(t), 'minimal': '=' + G.spell(t), 'decorated': '=' + G.spell(t, dcr)})
 
+    # ---- 2b. compact trees of the text-level theorem (XL.LexText.compact_text_parses): the text is printed by the MODEL --------
+    # random trees over integers, cell names, plain strings, all binary operators, signs, %, calls; the Lean printer CT.text
+    # gives the compact text; the implementation must read that text as the tree (and the model too: that is the theorem)
+    creq, cpend = [], []
+
+    def gen_ct(depth):
+        k = rnd.random()
+        if depth <= 0 or k < 0.25:
+            kind = rnd.choice('ncs')
+            if kind == 'n':
+                return 'N' + rnd.choice(['0', '1', '7', '42', '007', '1000', '9'])
+            if kind == 'c':
+                return 'C' + rnd.choice(['A', 'B', 'Z', 'AB', 'XFC', 'T', 'F', 'E', 'TRU', 'FAL', 'R', 'C', 'RC']) + '.' + rnd.choice(['1', '2', '10', '99', '1048575'])   # not the last column / row: known finding of C04
+            return 'S' + enc(rnd.choice(['', 'x', 'a b', 'x+1', '#N/A', 'TRUE', '1,2', 'A1:B2', '(', 'é'.encode('ascii', 'ignore').decode() or 'e']))
+        if k < 0.65:
+            return 'B' + rnd.choice(G.BINOPS) + ' ' + gen_ct(depth - 1) + ' ' + gen_ct(depth - 1)
+        if k < 0.8:
+            return rnd.choice(['M', 'P']) + ' ' + gen_ct(depth - 1)
+        if k < 0.9:
+            return '% ' + gen_ct(depth - 1)
+        n_ = rnd.randint(0, 3)
+        return 'F' + rnd.choice(['SUM', 'MAX', 'IF', 'AND', 'CONCATENATE', 'ABS', 'G', 'ROUND']) + ' %d' % n_ + ''.join(' ' + gen_ct(depth - 1) for _ in range(n_))
+    for i in range(400 if quick else 12000):
+        code = gen_ct(rnd.randint(1, 5))
+        creq.append('ctext ' + code)
+        cpend.append(code)
+    for code, ans in zip(cpend, model(creq)):
+        parts = ans.split(' ')
+        text = dec(parts[0])
+        mres = ' '.join(parts[1:-1])
+        exp = 'ok ' + dec(parts[-1])
+        mres = ('ok ' + dec(mres[3:])) if mres.startswith('ok ') else mres
+        got = impl_expr(text)
+        case = {'text': text, 'stream': 'compact-tree', 'tree_code': code, 'expected': exp, 'impl': got, 'model': mres}
+        run.count(1, text, code.count('B') + code.count('M') + code.count('P') + code.count('%') >= 2, 'compact-tree')
+        if mres != exp:
+            run.disagree('the model reads its own compact text %s as %s, not as the tree %s (theorem compact_text_parses)' % (text, mres, exp), case)
+        if canon(got) != canon(exp):
+            if canon(got) == canon(mres):
+                run.violation('the parser reads %s as %s, the grammar assigns %s' % (text, got, exp), case)
+            else:
+                run.disagree('compact text %s: implementation %s, model and tree %s' % (text, got, exp), case)
+    run.extra['compact_tree_requests'] = len(creq)
+
     # ---- 3. sign runs (known finding: the pinned code folds them) -----------------------------------------
     sr = G.Decor(rnd)
     sr.sign_runs = True
